@@ -255,5 +255,33 @@ func RunSched(c *Ctx, sc *vrt.Scenario, _ func(v *vrt.Violation) string) *Report
 		rep.Violations = append(rep.Violations, Violation{Clause: v.Clause, Sig: Sig(c.Job, v.Clause), Msg: v.Msg, Status: v.Status, Choices: v.Choices, Trace: v.Trace, Bound: v.Bound, Sites: vrt.SharedSiteList()})
 	}
 	rep.Replays = e.Stats.Replays
+	// cross-check of the reductions (jobs that ask for it are small): the same scenario explored again
+	// without happens-before pruning and without shared-site reduction must produce exactly the same
+	// set of outcomes; a difference means a reduction hid (or invented) behaviour
+	if c.Job.Params["crosscheck"] == "1" && e.Viol == nil && rep.Exhaustive {
+		vrt.NoSiteReduction = true
+		e2 := &vrt.Explorer{Sc: sc, Bound: c.Job.Bound, Deadline: c.Deadline, NoPrune: true, StopFirst: true}
+		e2.Explore()
+		vrt.NoSiteReduction = false
+		a, b := keysOf(st.Outcomes), keysOf(e2.Stats.Outcomes)
+		rep.Extra["crosscheck_unreduced_executions"] = e2.Stats.Executions
+		rep.Extra["crosscheck_outcomes_equal"] = a == b
+		rep.Executions += e2.Stats.Executions
+		rep.Transitions += e2.Stats.Transitions
+		if !e2.Stats.Exhaustive {
+			rep.Notes = append(rep.Notes, "unreduced cross-check did not finish within the budget: "+e2.Stats.CapHit)
+		} else if a != b || e2.Viol != nil {
+			rep.HarnessError = fmt.Sprintf("reduced and unreduced explorations disagree: outcomes %q vs %q (unreduced violation: %v)", a, b, e2.Viol != nil)
+		}
+	}
 	return rep
+}
+
+func keysOf(m map[string]int64) string {
+	var ks []string
+	for k := range m {
+		ks = append(ks, k)
+	}
+	sort.Strings(ks)
+	return strings.Join(ks, " || ")
 }
